@@ -67,6 +67,11 @@ impl Plan {
         }
         None
     }
+    /// Plans under which a probe for an absent key walks past (almost) every stored element: bulk inserts are
+    /// quadratic there, so workloads keep them to a few hundred elements.
+    pub fn is_clustering(self) -> bool {
+        matches!(self, Plan::Zero | Plan::Max | Plan::SamePos | Plan::Palette(..) | Plan::Tail | Plan::IdentOneTag)
+    }
     pub fn is_lawful(self) -> bool {
         self != Plan::Chaos && self != Plan::IdentThenChaos
     }
